@@ -69,6 +69,7 @@ pub struct CheckCfg {
     pub scenarios: usize,
     pub max_single_faults: usize,
     pub multi_fault_plans: usize,
+    pub kill_plans: usize,
     pub layouts_per_scenario: usize,
     pub threads: usize,
     pub wall_limit_s: u64,
@@ -391,6 +392,43 @@ fn one_scenario(cfg: &CheckCfg, index: usize, known: &KnownFile) -> JobOut {
                 account(&mut agg, cfg, &history, &layouts, &plan, &r, index, tainted);
             }
         }
+        // ---- crash points: the process is killed at an arbitrary instruction; the store
+        // survives as it is, the remaining programs of the history run over it ----
+        for _ in 0..cfg.kill_plans {
+            let pi = rng_fault.below(history.programs.len());
+            let total = base.stats.get(pi).map(|s| s.instr).unwrap_or(0);
+            if total < 3 {
+                continue;
+            }
+            let io = &base.stats[pi].io_instr;
+            let at = if !io.is_empty() && rng_fault.chance(2, 3) {
+                // right after (or a few instructions after) a file operation
+                io[rng_fault.below(io.len())] + 1 + rng_fault.below(3) as u64
+            } else {
+                1 + rng_fault.below(total as usize - 1) as u64
+            };
+            let mut plan = vec![PlanItem {
+                prog: pi,
+                fault: FaultSer {
+                    stmt: None,
+                    occ: 0,
+                    ordinal: 0,
+                    class: "process".into(),
+                    seam: "process".into(),
+                    kind: "kill".into(),
+                    arg: at as u32,
+                },
+            }];
+            if !candidates.is_empty() && rng_fault.chance(1, 3) {
+                let (fpi, f) = candidates[rng_fault.below(candidates.len())];
+                plan.push(PlanItem {
+                    prog: fpi,
+                    fault: FaultSer::from_fault(&f),
+                });
+            }
+            let r = run_case(&prep, &history, &plan, false, true);
+            account(&mut agg, cfg, &history, &layouts, &plan, &r, index, tainted);
+        }
         // ---- multi-fault plans (incl. transient faults on consecutive occurrences) ----
         if !candidates.is_empty() {
             for _ in 0..cfg.multi_fault_plans {
@@ -466,7 +504,15 @@ fn account(
                 .entry(format!("{}:{}", seam_name(*sk), class_name(*c)))
                 .or_insert(0) += 1;
         }
-        if let Some(w) = &s.stopped_early {
+        if s.killed {
+            nontrivial = true;
+            *agg.fired.entry("kill".to_string()).or_insert(0) += 1;
+            *agg.fired_by_seam.entry("process:kill".to_string()).or_insert(0) += 1;
+            if s.writes_after_kill {
+                *agg.fired.entry("kill_discarded_later_writes".to_string()).or_insert(0) += 1;
+            }
+        }
+        if let Some(w) = s.stopped_early.as_ref().filter(|w| w.as_str() != crate::model::KILLED) {
             *agg.stopped_early.entry(w.clone()).or_insert(0) += 1;
         }
     }
@@ -1142,6 +1188,7 @@ fn raw_account(a: &mut RawAgg, case: &crate::raw::RawCase, r: crate::raw::RawRun
         crate::runner::Outcome::Ok => "ok",
         crate::runner::Outcome::Error { .. } => "basic_error",
         crate::runner::Outcome::Budget => "budget",
+        crate::runner::Outcome::Killed => "killed",
         crate::runner::Outcome::Panic { .. } => "internal_failure",
         crate::runner::Outcome::LintError(_) => "rejected_by_checker",
         crate::runner::Outcome::ParseError(_) => "rejected_by_parser",
